@@ -141,6 +141,21 @@ def gen_cases(ctx):
             targets = [-1] + sorted(set([0, P - 1, rng.randrange(P), rng.randrange(P), min(1, P - 1)]))
             for t in targets:
                 cases.append((P, rng.randrange(1 << 30), rng.randrange(8), op, dt, count, t, dseed, tuple(vals)))
+    # every (datatype, built-in operation) pair on every run, with values on both sides of the sign bit of the type
+    # (a kernel that treats an unsigned type as signed, or the reverse, shows only there)
+    for dt in range(9):
+        for op in (0, 1, 2):
+            for P in ((2, 9) if ctx.quick else (2, 3, 9, 17)):
+                count = 3
+                n = SZ[dt] * 8
+                if dt in (3, 4):
+                    vals = [gen_value(rng, dt) for _ in range(P * count)]
+                else:
+                    pool = [0, 1, (1 << n) - 1, 1 << (n - 1), (1 << (n - 1)) - 1, (1 << (n - 1)) + 1, 5]
+                    vals = [rng.choice(pool) if rng.random() < 0.8 else rng.getrandbits(n) for _ in range(P * count)]
+                dseed = rng.randrange(1 << 16)
+                for t in (-1, 0, P - 1):
+                    cases.append((P, rng.randrange(1 << 30), rng.randrange(8), op, dt, count, t, dseed, tuple(vals)))
     return cases
 
 
